@@ -70,6 +70,9 @@ def plan(tier, seed):
     for mk, fk in (("hexahedron", "3d"), ("quad", "ps"), ("tetra", "3d"), ("hexahedron20", "3d")):
         cases.append(dict(key=f"view/{mk}/{fk}", op="view", mesh=mk, fk=fk, seed=seed, cost=5))
         cases.append(dict(key=f"force-moment/{mk}/{fk}", op="force", mesh=mk, fk=fk, seed=seed))
+    # solids on PLAIN two-dimensional fields (2 x 2 stress tensors: plane stress, 2D hyperelasticity)
+    for mk in ("quad", "triangle", "quad8"):
+        cases.append(dict(key=f"view2d/{mk}", op="view2d", mesh=mk, fk="2d", seed=seed, cost=3))
     return cases
 
 
@@ -406,6 +409,45 @@ def run(case):
             Fp = fem.project(F, region)
             c.close("project/F", "projected 'Deformation Gradient' point data (same storage convention as the cell data)", np.asarray(pdp["Deformation Gradient"]).reshape(-1, 3, 3).transpose(0, 2, 1), Fp)
         return c.result(dict(case=case["key"], cells=int(mesh.ncells)))
+    if op == "view2d":
+        mk = case["mesh"]
+        for mlab, um in (("plane-stress", fem.LinearElasticPlaneStress(E=2.0, nu=0.3)), ("neo-hooke-2d", fem.NeoHooke(mu=1.0, bulk=3.0))):
+            mesh, region, field = make_field(mk, "renum" if mk in ("quad", "triangle") else "distorted", "2d", seed)
+            set_state(field, mesh, 0.15, seed)
+            body = fem.SolidBody(um, field)
+            F = field.extract()[0]
+            P = np.array(body.evaluate.gradient(field)[0], copy=True)
+            if P.shape[:2] != (2, 2):
+                c.bad(f"{mlab}/shape", "stress of a solid on a plain 2D field", list(P.shape), "(2, 2, q, c)")
+                continue
+            tau = np.einsum("ijqc,kjqc->ikqc", P, F)
+            J = np.linalg.det(np.moveaxis(F, (0, 1), (-2, -1)))
+            # (on a plain 2D field the thickness stretch is unknown: felupe documents, with a warning, that the Cauchy stress
+            #  falls back to the Kirchhoff stress there -- the harness follows the documentation)
+            for stype, S in (("Cauchy", tau), ("Kirchhoff", tau), (None, P)):
+                label = f"{stype} Stress" if stype else "Stress"
+                S3 = np.zeros((3, 3) + S.shape[2:])
+                S3[:2, :2] = S
+                dev = S3 - np.trace(S3) / 3 * np.eye(3)[:, :, None, None]
+                vm = np.sqrt(1.5 * (dev * dev).sum((0, 1)))  # von Mises value of the plane tensor embedded in 3D (zero out-of-plane row / column)
+                for plab, proj in (("cell", None), ("project", fem.project)) + ((("extrapolate", fem.tools.extrapolate),) if mk == "quad" else ()):  # (extrapolation needs as many quadrature points as cell points)
+                    v = fem.ViewSolid(field, solid=body, stress_type=stype, project=proj)
+                    data = v.mesh.cell_data if proj is None else v.mesh.point_data
+                    c.trans += 1
+                    if f"Equivalent of {label}" not in data.keys():
+                        c.bad(f"{mlab}/{stype}/{plab}/label", "view data labels", sorted(data.keys()), f"Equivalent of {label}")
+                        continue
+                    want = vm.mean(0) if proj is None else np.asarray(proj(vm, region)).ravel()
+                    c.close(f"{mlab}/{stype}/{plab}/von-mises", "equivalent (von Mises) value of a 2 x 2 stress (embedded in 3D with a zero out-of-plane row / column)", np.asarray(data[f"Equivalent of {label}"]).ravel(), want)
+                    if stype is not None:
+                        vg = np.stack([S[0, 0], S[1, 1], S[0, 1]])
+                        want = vg.mean(-2).T if proj is None else np.asarray(proj(vg, region))
+                        c.close(f"{mlab}/{stype}/{plab}/voigt", "stress components XX, YY, XY", np.asarray(data[label])[:, :3], want)
+                    if stype is not None and mlab != "plane-stress":  # (P F^T of the small-strain law is not symmetric)
+                        w = np.linalg.eigvalsh(np.moveaxis(0.5 * (S + S.transpose(1, 0, 2, 3)), (0, 1), (-2, -1)))  # (q,c,2)
+                        want = w.mean(0) if proj is None else np.asarray(proj(np.moveaxis(w, -1, 0), region))
+                        c.close(f"{mlab}/{stype}/{plab}/principal", "principal values (ascending)", np.asarray(data[f"Principal Values of {label}"])[:, :2], want)
+        return c.result(dict(case=case["key"], cells=int(mesh.ncells)))
     if op == "force":
         mk, fk = case["mesh"], case["fk"]
         for mixed in (False, True):
@@ -425,15 +467,16 @@ def run(case):
             for a in range(d):
                 for side in ("min", "max"):
                     m = np.isclose(tw.points[:, a], getattr(tw.points[:, a], side)())
-                    b = fem.Boundary(field[0], mask=m)
-                    for form in ("sparse", "dense"):
+                    for blab, b in (("", fem.Boundary(field[0], mask=m)), ("/skip-first", fem.Boundary(field[0], mask=m, skip=(True, False, False)[:d])), ("/skip-others", fem.Boundary(field[0], mask=m, skip=(False, True, True)[:d]))):
+                      side_ = side + blab  # (boundary objects that prescribe only some components select the same POINTS)
+                      for form in ("sparse", "dense"):
                         rr = r if form == "sparse" else r.toarray()
                         got = fem.tools.force(field, rr, b)
                         c.trans += 1
-                        c.close(f"mixed={mixed}/axis={a}/{side}/{form}/force", "boundary force = sum of nodal forces over the boundary's points", got, fr[m].sum(0), scale=max(np.abs(fr).max(), 1e-12))
+                        c.close(f"mixed={mixed}/axis={a}/{side_}/{form}/force", "boundary force = sum of nodal forces over the boundary's points", got, fr[m].sum(0), scale=max(np.abs(fr).max(), 1e-12))
                         if d == 3:
                             cp = np.array([0.1, 0.2, 0.3])
                             gotm = fem.tools.moment(field, rr, b, centerpoint=cp)
-                            c.close(f"mixed={mixed}/axis={a}/{side}/{form}/moment", "boundary moment = sum of (x - c) x f over the boundary's points", gotm, np.cross(x[m] - cp, fr[m]).sum(0), scale=max(np.abs(fr).max(), 1e-12))
+                            c.close(f"mixed={mixed}/axis={a}/{side_}/{form}/moment", "boundary moment = sum of (x - c) x f over the boundary's points", gotm, np.cross(x[m] - cp, fr[m]).sum(0), scale=max(np.abs(fr).max(), 1e-12))
         return c.result(dict(case=case["key"]))
     raise ValueError(op)
